@@ -16,7 +16,7 @@ for sid in sorted(m, key=key):
     extra = (" tool error: " + ", ".join(err)) if err else ""
     rows.append("| %s | %s | %s | %s | %s%s |" % (sid, meta["breaks_property"], desc.get(sid, ""), ", ".join(hit) or "-", ", ".join(miss) or "-", extra))
 n_target = sum(1 for sid in m if any(v == 1 and k.startswith(json.load(open(os.path.join(ROOT, "seeded", sid, "meta.json")))["breaks_property"]) for k, v in m[sid].items()))
-text = "<!-- MATRIX BEGIN -->\n" + "\n".join(rows) + "\n\n%d of %d seeded changes raise an alarm in the quick check of the property they were written to break; every other one is reported by the check of the property that owns the behaviour it changes (10.4b) or, for C06-r3b, by the thorough tier.\n<!-- MATRIX END -->" % (n_target, len(m))
+text = "<!-- MATRIX BEGIN -->\n" + "\n".join(rows) + "\n\n%d of %d seeded changes raise an alarm in the quick check of the property they were written to break; every other one is reported by the check of the property that owns the behaviour it changes (10.4b) or, for C06-r3b, by the thorough tier; C18-r3b is deliberately not reported (10.4c).\n<!-- MATRIX END -->" % (n_target, len(m))
 p = os.path.join(ROOT, "DESIGN.md")
 s = open(p).read()
 if "@@MATRIX@@" in s:
